@@ -178,6 +178,14 @@ func (d *HTTPProxyDialer) DialContextR(ctx context.Context, network, addr string
 		conn.Close()
 		return nil, nil, err
 	case res := <-resCh:
+		if res.StatusCode/100 == 2 {
+			// A 2xx response to CONNECT has no body, whatever Content-Length or Transfer-Encoding it
+			// carries (RFC 9110, 9.3.6): what follows the header section belongs to the tunnel and
+			// must not be consumed when the caller closes the response body.
+			res.Body = http.NoBody
+			res.ContentLength = 0
+			res.TransferEncoding = nil
+		}
 		return res, conn, nil
 	}
 }
